@@ -85,6 +85,7 @@ CONSTANTS Docs,        \* subset of {"dA", "dB", "dC"}
           MaxCalls,    \* calls (Extract / Open / UseCMap) per behaviour
           MaxLive,     \* generators alive at the same time
           EarlyClose,  \* BOOLEAN: a generator may be closed before it is exhausted
+          AutoClose,   \* BOOLEAN: the caller exhausts a generator right after its last page (no separate Close step)
           ClientCalls, \* BOOLEAN: UseCMap calls are part of histories
           Dev,         \* deviation switches in force
           History      \* BOOLEAN: record the schedule (for replay); FALSE for the deep exhaustive runs
@@ -404,7 +405,7 @@ ARender ==
   /\ Micro("font") /\ Me.todo = <<>>
   /\ LET r == PageResult(running)
          done == Me.done \cup {Me.cur}
-         finished == Me.atomic /\ Me.pages \ done = {} IN
+         finished == (Me.atomic \/ AutoClose) /\ Me.pages \ done = {} IN
        /\ last' = [valid |-> TRUE, doc |-> Me.doc, page |-> Me.cur, res |-> r]
        /\ Log(Ev("page", running, Me.doc, Me.caching, Me.pages, Me.kind, Me.cur, r))
        /\ IF finished THEN calls' = [calls EXCEPT ![running] = Free] /\ running' = 0
@@ -470,5 +471,5 @@ CachesAppendOnly == [][/\ \A n \in CMapNames : cmapc[n].loaded => cmapc'[n] = cm
 ClientOwnsItsTable == ~client.alias
 
 Quiescent == running = 0 /\ \A s \in 1..MaxLive : calls[s].st = "free"
-EmitTerminal == (History /\ Quiescent /\ ncalls = MaxCalls) => PrintT("@@" \o ToJson([sched |-> sched]))
+EmitTerminal == (History /\ Quiescent /\ ncalls = MaxCalls) => PrintT("@@" \o ToJson([sched |-> sched, auto |-> AutoClose]))
 =============================================================================
